@@ -991,6 +991,30 @@ def frontOKb (st : Static) (nodes : List AstNode) (d0 : Defs) : Bool :=
   && (!st.opts.optStatic || (List.range d0.symbols.length).all fun r =>
         !(d0.sym r).known || (match (d0.sym r).value with | .unknown => true | _ => false) || (d0.sym r).resolved)
 
+/-- the marks both assemblers set before the first pass: every mark except the one the static-value
+    optimisation gives a statically known constant that no `-d` option defines -/
+def markedByBoth (st : Static) (d0 : Defs) (r : Nat) : Bool :=
+  (d0.sym r).resolved &&
+    !((d0.sym r).known && (st.decls.symbols.decls.getD r default).kind == .constant &&
+      (st.opts.defines.find? (·.1 == (st.decls.symbols.decls.getD r default).name)).isNone)
+
+/-- the facts of `Casm.FrontOKS`, decided: constant nodes of one symbol are one node; a flagged
+    constant has a statically known expression; a constant marked by the optimisation only holds the
+    definite value `eval_simple` computes for its expression -/
+def frontOKSb (st : Static) (nodes : List AstNode) (d0 : Defs) : Bool :=
+  let pos := positions nodes
+  pos.all fun p => match p.2 with
+    | .symbol _ _ (.constant e) _ (some r) =>
+      (pos.all fun q => match q.2 with
+         | .symbol _ _ (.constant _) _ (some r') => r' != r || q.1 == p.1
+         | _ => true)
+      && (!(d0.sym r).known || staticallyKnown pureP e)
+      && (!((d0.sym r).resolved && !markedByBoth st d0 r) ||
+            ((d0.sym r).known && (match evalSimple st.decls d0 e with
+              | .ok v => v == (d0.sym r).value && (match v with | .unknown => false | _ => true)
+              | .error _ => false)))
+    | _ => true
+
 /-- **Fixed-point certificate** (C02): a claimed final state is re-checked by one strict
     (guessing forbidden), non-first pass; it must be accepted, stable, silent and unchanged. -/
 def certify (opts : Opts) (fs : SrcFiles) (roots : List (List Char)) (claimed : StateDump) : Except String Unit :=
